@@ -1,6 +1,6 @@
 CONSTANTS
-  MaxLen = 4
-  Sample = 40
+  MaxLen = 3
+  Sample = 20
 INIT Init
 NEXT Next
 VIEW View
